@@ -9,7 +9,6 @@ import (
 	"github.com/PowerDNS/lightningstream/config"
 )
 
-
 func sweeperCfg(bits string, cutoff string) config.Sweeper {
 	b, err := strconv.ParseUint(bits, 10, 32)
 	if err != nil {
